@@ -11,6 +11,7 @@ import Dbg.Driver.C05
 import Dbg.Driver.C01
 import Dbg.Driver.C03
 import Dbg.Driver.C09
+import Dbg.Driver.C04
 /-! `dbgdriver`: one request per line on stdin (`<prop> <op> <args…>\t<implementation answer>`),
     one line per request on stdout (`<model answer>\t<verdict of holdsCxx on the implementation answer>`). -/
 open Drv
@@ -33,6 +34,9 @@ def dispatch (prop : String) (args : List String) (impl : String) : R Ans :=
   | "C09" => C09.handle args impl
   | "C18" => C18.handle args impl
   | "C20" => C20.handle args impl
+  | "C04" => C04.handle args impl
+  | "C06" => C06.handle args impl
+  | "C19" => C19.handle args impl
   | "C12" => (match args with | "exts" :: _ => C13.handleExts args impl | _ => C13.handle args impl)
   | _ => throw s!"unknown-property:{prop}"
 
